@@ -4,12 +4,14 @@ import json
 def run(ctx):
     # the oracle: elimination-based invariant factors / modular ranks agree with gcds of minors; universal coefficients on small pairs
     ctx.tlc_mc("MC_LinAlg", "MC_LinAlg.cfg", workers=1, coverage=False, timeout=900, cache=True)
+    # A: TLC enumerates every pair (d1 2x2, d2 1x2) with entries -2..2 (thorough -3..3) and d2 d1 = 0
+    path, objs = ctx.tlc_gen("Gen_HomPairs", "Gen_HomPairs.thorough.cfg" if ctx.thorough else "Gen_HomPairs.quick.cfg", workers=1)
     trace = ctx.path("trace.ndjson")
-    summ, _, _ = ctx.yv("c07", "record", "--seed", ctx.seed, "--tier", ctx.tier, "--out", trace, timeout=3000)
+    summ, _, _ = ctx.yv("c07", "record", "--seed", ctx.seed, "--tier", ctx.tier, "--in", path, "--out", trace, timeout=3000)
     rec = summ["record"]
     r = ctx.tlc_trace("Trace_HomCalc", "Trace_HomCalc.cfg", trace, timeout=3000)
     ctx.trace_verdict(r, trace, "homology computation")
-    ctx.cov["conformance"].append({"direction": "impl->spec", **rec, "accepted": r["accepted"]})
+    ctx.cov["conformance"].append({"direction": "spec->impl inputs + impl->spec validation", **rec, "accepted": r["accepted"], "tlc_enumerated_pairs": len(objs)})
     ctx.cov["evaluations"] += rec["events"]
     ctx.cov["distinct_nontrivial"] += rec["cases"] - rec["zero_dimensional_cases"]
     if r["accepted"]:
